@@ -192,7 +192,17 @@ def shape_search(ctx, failed, lean_out):
         body += ["failing input: Miri litmus program `%s` with -Zmiri-seed=%d:" % (r["program"], r["seed"]), "  replay: " + r["cmd"], r["report"]]
         ctx.violation("miri", "\n".join(body), True)
     else:
-        body += ["search: %d Miri litmus runs (%s) found no failing schedule" % (len(res), prop), lean_out[-2000:]]
+        # second search: the same programs natively (release build, real threads, many rounds)
+        nat = miri.run_native(ctx, miri.programs_for(prop) if prop != "C02" else miri.programs_for("C02") + miri.programs_for("C09"))
+        nbad = miri.failing(nat)
+        ctx.coverage["shape_search_native_runs"] = len(nat)
+        if nbad:
+            r = nbad[0]
+            body += ["failing input: litmus program `%s` run natively (%d rounds, real threads):" % (r["program"], r.get("rounds", 0)),
+                     "  replay: " + r["cmd"], r["report"]]
+            ctx.violation("native", "\n".join(body), True)
+            return
+        body += ["search: %d Miri litmus runs (%s) and %d native stress runs found no failing schedule" % (len(res), prop, len(nat)), lean_out[-2000:]]
         ctx.defer_nfi("\n".join(body))
 
 
